@@ -22,17 +22,17 @@ from ..world import World, raw_http
 ID = "C13"
 RULE = (
     "Request targets from an adversarial path grammar (real collection names, '..', '.', empty segment, %2e%2e, %2E., ..%2f, %2f, %5c.., '..;x', 300-char segment, 'etc', names of sentinel "
-    "directories that exist next to the data directory, '.git'; 1-8 segments after a real base path, optional trailing slash, optional route prefix, targets without leading '/') x method {GET, HEAD, PUT, "
-    "POST, DELETE, MKCOL, extended MKCOL, MKCALENDAR, PROPFIND Depth 0/1, PROPPATCH, REPORT multiget (hrefs from the same grammar), sync, query, OPTIONS}. Engine A: raw bytes to a real listening "
-    "`python -m xandikos`-equivalent process started through a launcher that installs an audit hook; engine B: the WSGI callable in-process with PATH_INFO as a WSGI server decodes it (dot segments kept, "
-    "%2f decoded) under an audit hook. Oracles: (1) a snapshot (names, sizes, hashes) of everything next to the data directory (secret/, an existing git repository victim/, an empty esc/) is unchanged "
-    "after every request; (2) no audited open/listdir/scandir/mkdir/rename/remove/rmdir/rmtree/chmod event of the request's lifetime resolves to a path outside data/ other than the interpreter, "
-    "library, source and git-config files seen during a warm-up of benign requests; (3) the request is refused (4xx) with an unchanged data tree, or its status class and the resulting tree of names "
-    "under data/ equal those of the lexically normalised target sent to a twin server on a copy of the data directory (5xx with unchanged tree: recorded, not a violation). Non-trivial: a target whose "
-    "naive join with the data root leaves it at some prefix; distinct by (method, target)."
+    "directories that exist next to the data directory - including data.bak, whose name starts with the root's own name - and '.git'; 1-8 segments after a real base path, optional trailing slash, "
+    "optional route prefix, targets without leading '/') x method {GET, HEAD, PUT, POST, DELETE, MKCOL, extended MKCOL, MKCALENDAR, PROPFIND Depth 0/1, PROPPATCH, REPORT multiget (hrefs from the same "
+    "grammar), sync, query, OPTIONS}. Engine A: raw bytes to a real listening `python -m xandikos`-equivalent process started through a launcher that installs an audit hook; engine B: the WSGI callable "
+    "in-process with PATH_INFO as a WSGI server decodes it (dot segments kept, %2f decoded) under an audit hook. Oracles: (1) a snapshot (names, hashes) of everything around the data directory "
+    "(secret/, an existing git repository victim/, an empty esc/, data.bak/) is unchanged after every request; (2) no audited open/listdir/scandir/mkdir/rename/remove/rmdir/rmtree/chmod event of the "
+    "request's lifetime resolves to a path outside data/ other than the interpreter, library, source and git-config files seen during a warm-up of benign requests; (3) the request is refused (4xx) with an "
+    "unchanged data tree, or its status class and the resulting tree of names under data/ equal those of the lexically normalised target sent to a twin server on a copy of the data directory (reads: to "
+    "the same server; 5xx with unchanged tree: recorded, not a violation). Non-trivial: a target whose naive join with the data root leaves it at some prefix; distinct by (method, target)."
 )
 
-SEGMENTS = ["..", "..", "..", ".", "", "%2e%2e", "%2E.", ".%2e", "..%2f", "..%2f..", "%2f", "%5c..", "..;x", "A" * 300, "etc", "secret", "victim", "esc", ".git", "user", "calendars", "calendar", "x.ics", "newcol", "a.txt", "tmp"]
+SEGMENTS = ["..", "..", "..", ".", "", "%2e%2e", "%2E.", ".%2e", "..%2f", "..%2f..", "%2f", "%5c..", "..;x", "A" * 300, "etc", "secret", "victim", "esc", "data.bak", "data2", "data", ".git", "user", "calendars", "calendar", "x.ics", "newcol", "a.txt", "tmp"]
 BASES = ["", "/user", "/user/calendars", "/user/calendars/calendar", "/user/contacts/addressbook", "/user/calendars/calendar/ev.ics"]
 METHODS = ["GET", "HEAD", "PUT", "POST", "DELETE", "MKCOL", "MKCOL-ext", "MKCALENDAR", "PROPFIND0", "PROPFIND1", "PROPPATCH", "REPORT-multiget", "REPORT-sync", "REPORT-query", "OPTIONS"]
 
@@ -186,6 +186,7 @@ def make_scratch():
     with open(os.path.join(scratch, "secret", "x.ics"), "wb") as f:
         f.write(ICS % b"secret")
     os.makedirs(os.path.join(scratch, "esc"))
+    os.makedirs(os.path.join(scratch, "data.bak"))  # a sibling whose name merely starts with the root's name
     os.makedirs(os.path.join(scratch, "home"))
     # an existing calendar store next to the data directory
     import dulwich.repo
